@@ -351,9 +351,13 @@ fn bound_of(prec: &str) -> f64 {
     }
 }
 
-/// largest coefficient magnitude with max^2 * min(la, lb) <= bound (and inside i32)
+/// largest coefficient magnitude with max^2 * max(la, lb) <= bound (and inside i32).
+/// The property's literal envelope is max^2 * min(la, lb) <= bound; for very unbalanced lengths the real
+/// code is NOT exact there (known finding F10: pure rounding, see docs/notes/C04.md), so the bulk of the
+/// cases is generated inside the sub-envelope with max(la, lb) — which is what precision.rs tabulates
+/// (both operands of length L) — and the stream `unbalanced-at-min-bound` carries the witnesses.
 fn env_max(prec: &str, la: usize, lb: usize) -> i64 {
-    let mn = la.min(lb).max(1) as f64;
+    let mn = la.max(lb).max(1) as f64;
     let mut m = (bound_of(prec) / mn).sqrt().floor() as i64;
     while (m + 1) * (m + 1) * (mn as i64) <= bound_of(prec) as i64 {
         m += 1;
@@ -655,6 +659,13 @@ fn gen(args: &Args, emit: &mut dyn FnMut(String), stats: &mut Stats) {
             let b = coeffs(&mut g.rng, len, i32::MAX as i64, "pos");
             (g.emit)(format!("fft {} ; m {} {}", prec, join(&a), join(&b)));
         }
+    }
+    // (vi) F10 witnesses: inside the literal envelope max^2*min(len) (min(len) = 1), far outside max^2*max(len)
+    {
+        let ramp = |l: i64, m: i64| -> Vec<i32> { (0..l).map(|i| ((2 * i + 1 - l) * m / l) as i32).collect() };
+        (g.emit)(format!("fft f64 ; m 1000000 {}", join(&ramp(4096, 1_000_000))));
+        (g.emit)(format!("fft f32 ; m 31 {}", join(&ramp(8192, 31))));
+        g.stats.add("stream:unbalanced-at-min-bound", 2);
     }
     // update_n on its own and empty operands
     for n in [1usize, 2, 4, 8, 1024] {
